@@ -42,7 +42,7 @@ func init() {
 			"The harness builds the real ParallelProcessor (orchestrator.BuildParallelProcessor) and drives the real Scheduler.Update itself instead of loop.Run: pending commands and undelivered messages form two pools; at each step the PRNG either executes one pending command to completion (a real tier2 job, a real squash, a walker download) or delivers one message to Update; " +
 			"this reaches every order of job completion, merge completion and download events, including several jobs finished before any completion is seen. Monitors: (a) when Worker.Work(unit) is called every lower stage that began before the unit's segment has completed the previous segment; (b) per stage, merges finish exactly once per segment and in increasing segment order, per store module lastBlockInStore never decreases and sits on a segment boundary; " +
 			"(c) no panic, no MsgJobFailed/MsgMergeFailed; (d) on quit: nil error, FinalStoreMap(hand-off) == REF-LINEAR, every output of the requested range delivered by the walker equals the reference, every file left decodes to the reference content; (e) bounded progress: commands and messages exhausted without quit, or only walker polls left with an unchanged state for 3 rounds = deadlock; more than 400+60*units steps = inconclusive. " +
-			"systematic part (the last plain cases: quick 8 grids x 250 executions, thorough 48 x 5000): for ONE small grid (<=6 units, 1..2 workers, one PRNG cache subset) the controlled schedules are enumerated depth-first by re-execution: follow a prefix of choices, then always the first alternative, then advance the deepest choice that has an untried alternative; a state (unit matrix + store positions + multiset of undelivered messages + pending commands by origin + walker progress) reached a second time is not explored again; every execution that reaches quit gets the monitors (a)-(e); a grid whose alternatives run out within the budget is reported as enumerated completely (modulo that state abstraction). " +
+			"systematic part (the last plain cases: quick 8 grids x 250 executions, thorough 48 x 2500): for ONE small grid (<=6 units, 1..2 workers, one PRNG cache subset) the controlled schedules are enumerated depth-first by re-execution: follow a prefix of choices, then always the first alternative, then advance the deepest choice that has an untried alternative; a state (unit matrix + store positions + multiset of undelivered messages + pending commands by origin + walker progress) reached a second time is not explored again; every execution that reaches quit gets the monitors (a)-(e); a grid whose alternatives run out within the budget is reported as enumerated completely (modulo that state abstraction). " +
 			"non-trivial = schedule with >=3 jobs or merges in which at least one message was delivered out of creation order, or a systematic grid with >=2 executions judged to the end; distinct by hash of the pick sequence",
 		Assumptions: []string{
 			"the only values altered in messages are the pacing fields MsgFileNotPresent.NextWait / MsgDownloadSegment.Wait (shrunk to 1 ns, never to 0: zero means 'no wait requested' to the scheduler); asynchronous file writes are awaited between steps (Stages.WaitAsyncWork), so the controlled mode does not explore the in-flight-write race (the -race mode with the real loop does)",
@@ -346,7 +346,7 @@ func c05DFSBudget(tier string) (execs, maxUnits int) {
 		return v, 6
 	}
 	if tier == "thorough" {
-		return 5000, 6
+		return 2500, 6
 	}
 	return 250, 6
 }
